@@ -133,60 +133,72 @@ def _loaders(ctx, cfg):
     from qucumber.utils import data as D
     ctx.under_contract("data.load_data", "data.load_data_DM")
     ctx.stub("np.loadtxt")
-    rng = np.random.default_rng(5)
-    samples = rng.integers(0, 2, size=(7, 3)).astype("float32")
-    psi = rng.normal(size=(8, 2)).astype("float32")
-    re_, im_ = rng.normal(size=(8, 8)).astype("float32"), rng.normal(size=(8, 8)).astype("float32")
-    trb = np.array([list("XYZ"), list("ZZZ"), list("ZQZ")] * 2 + [list("ZZZ")])
-    bs = np.array(["XYZ", "ZZZ"])
-    calls = []
-    table = {"S": samples, "P": psi, "R": re_, "I": im_, "TB": trb, "B": bs}
+    for nq in (1, 2, 3):      # one site matters: the psi file is then 2 x 2 and its orientation cannot be guessed from its shape
+        Dq = 2 ** nq
+        rng = np.random.default_rng(5)
+        samples = rng.integers(0, 2, size=(7 if nq != 2 else 1, nq)).astype("float32")       # n = 2: a file with a single sample
+        psi = rng.normal(size=(Dq, 2)).astype("float32")
+        re_, im_ = rng.normal(size=(Dq, Dq)).astype("float32"), rng.normal(size=(Dq, Dq)).astype("float32")
+        trb = np.array([list("XYZ"[:nq]), list("ZZZ"[:nq]), list("ZQZ"[-nq:])] * 2 + [list("ZZZ"[:nq])])[:len(samples)]
+        bs = np.array(["XYZ"[:nq], "ZZZ"[:nq]])
+        calls = []
+        table = {"S": samples, "P": psi, "R": re_, "I": im_, "TB": trb, "B": bs}
 
-    def fake(path, dtype=float, ndmin=0, **k):
-        calls.append((path, dtype, ndmin))
-        return table[path]
-    with mock.patch.object(np, "loadtxt", fake):
-        for tb in (None, "TB"):
-            for b in (None, "B"):
-                for p in (None, "P"):
-                    del calls[:]
-                    out = D.load_data("S", p, tb, b)
-                    t = "[psi=%s tr_bases=%s bases=%s]" % (p, tb, b)
-                    n = 1 + (p is not None) + (tb is not None) + (b is not None)
-                    ctx.holds("load_data/returns [samples, target?, tr_bases?, bases?] in that order" + t, isinstance(out, list) and len(out) == n)
-                    ctx.holds("load_data/samples == double(float32(file))" + t, out[0].dtype == torch.double and torch.equal(out[0], torch.tensor(samples, dtype=torch.double)))
-                    i = 1
-                    if p:
-                        tp = out[i]
-                        ctx.holds("load_data/target psi: columns 0 / 1 are real / imaginary parts, single precision values" + t,
-                                  tuple(tp.shape) == (2, 8) and tp.dtype == torch.double and torch.equal(tp[0], torch.tensor(psi[:, 0], dtype=torch.double))
-                                  and torch.equal(tp[1], torch.tensor(psi[:, 1], dtype=torch.double)))
-                        i += 1
-                    if tb:
-                        ctx.holds("load_data/training bases returned as written (strings)" + t, out[i] is trb)
-                        i += 1
-                    if b:
-                        ctx.holds("load_data/bases returned as written (strings, at least 1-d)" + t, out[i] is bs and any(c[0] == "B" and c[1] is str and c[2] == 1 for c in calls))
-                    ctx.holds("load_data/numeric files read as float32, bases as str" + t,
-                              all((c[1] == "float32") if c[0] in ("S", "P") else (c[1] is str) for c in calls))
-        for r in (None, "R"):
-            for im in (None, "I"):
-                t = "[real=%s imag=%s]" % (r, im)
-                try:
-                    out = D.load_data_DM("S", r, im, "TB", "B")
-                    ok = (r is None) == (im is None)
-                    ctx.holds("load_data_DM/ValueError iff exactly one matrix path is given" + t, ok)
-                    if r and im:
-                        ctx.holds("load_data_DM/order [samples, target, tr_bases, bases]" + t, len(out) == 4 and out[2] is trb and out[3] is bs)
-                        ctx.holds("load_data_DM/target == make_complex(real, imag) in double" + t, tuple(out[1].shape) == (2, 8, 8) and out[1].dtype == torch.double
-                                  and torch.equal(out[1][0], torch.tensor(re_, dtype=torch.double)) and torch.equal(out[1][1], torch.tensor(im_, dtype=torch.double)))
-                    else:
-                        ctx.holds("load_data_DM/without matrices [samples, tr_bases, bases]" + t, len(out) == 3 and out[1] is trb)
-                    ctx.holds("load_data_DM/samples == double(float32(file))" + t, torch.equal(out[0], torch.tensor(samples, dtype=torch.double)))
-                except ValueError:
-                    ctx.holds("load_data_DM/ValueError iff exactly one matrix path is given" + t, (r is None) != (im is None))
-        out = D.load_data_DM("S")
-        ctx.holds("load_data_DM/samples only", len(out) == 1)
+        def fake(path, dtype=float, ndmin=0, **k):
+            # numpy.loadtxt: the table as written when ndmin=2, otherwise squeezed (a one-row or one-column file loses that
+            # dimension) and padded back up to ndmin dimensions
+            calls.append((path, dtype, ndmin))
+            a = np.asarray(table[path])
+            if ndmin == 2 and a.ndim == 2:
+                return a
+            a = np.squeeze(a)
+            while a.ndim < ndmin:
+                a = a[None]
+            return a
+        with mock.patch.object(np, "loadtxt", fake):
+            for tb in (None, "TB"):
+                for b in (None, "B"):
+                    for p in (None, "P"):
+                        del calls[:]
+                        out = D.load_data("S", p, tb, b)
+                        t = "[n=%d psi=%s tr_bases=%s bases=%s]" % (nq, p, tb, b)
+                        n = 1 + (p is not None) + (tb is not None) + (b is not None)
+                        ctx.holds("load_data/returns [samples, target?, tr_bases?, bases?] in that order" + t, isinstance(out, list) and len(out) == n)
+                        ctx.holds("load_data/samples == double(float32(file)), one row per sample and one column per site" + t,
+                              out[0].dtype == torch.double and tuple(out[0].shape) == samples.shape and torch.equal(out[0], torch.tensor(samples, dtype=torch.double)))
+                        i = 1
+                        if p:
+                            tp = out[i]
+                            ctx.holds("load_data/target psi: columns 0 / 1 are real / imaginary parts, single precision values" + t,
+                                      tuple(tp.shape) == (2, Dq) and tp.dtype == torch.double and torch.equal(tp[0], torch.tensor(psi[:, 0], dtype=torch.double))
+                                      and torch.equal(tp[1], torch.tensor(psi[:, 1], dtype=torch.double)))
+                            i += 1
+                        if tb:
+                            ctx.holds("load_data/training bases returned as written (strings, one row per sample)" + t,
+                                  isinstance(out[i], np.ndarray) and out[i].shape == trb.shape and bool((out[i] == trb).all()))
+                            i += 1
+                        if b:
+                            ctx.holds("load_data/bases returned as written (strings, at least 1-d)" + t, isinstance(out[i], np.ndarray) and out[i].shape == bs.shape and bool((out[i] == bs).all()) and any(c[0] == "B" and c[1] is str and c[2] >= 1 for c in calls))
+                        ctx.holds("load_data/numeric files read as float32, bases as str" + t,
+                                  all((c[1] == "float32") if c[0] in ("S", "P") else (c[1] is str) for c in calls))
+            for r in (None, "R"):
+                for im in (None, "I"):
+                    t = "[n=%d real=%s imag=%s]" % (nq, r, im)
+                    try:
+                        out = D.load_data_DM("S", r, im, "TB", "B")
+                        ok = (r is None) == (im is None)
+                        ctx.holds("load_data_DM/ValueError iff exactly one matrix path is given" + t, ok)
+                        if r and im:
+                            ctx.holds("load_data_DM/order [samples, target, tr_bases, bases]" + t, len(out) == 4 and np.shape(out[2]) == trb.shape and bool((out[2] == trb).all()) and np.shape(out[3]) == bs.shape and bool((out[3] == bs).all()))
+                            ctx.holds("load_data_DM/target == make_complex(real, imag) in double" + t, tuple(out[1].shape) == (2, Dq, Dq) and out[1].dtype == torch.double
+                                      and torch.equal(out[1][0], torch.tensor(re_, dtype=torch.double)) and torch.equal(out[1][1], torch.tensor(im_, dtype=torch.double)))
+                        else:
+                            ctx.holds("load_data_DM/without matrices [samples, tr_bases, bases]" + t, len(out) == 3 and out[1] is trb)
+                        ctx.holds("load_data_DM/samples == double(float32(file))" + t, torch.equal(out[0], torch.tensor(samples, dtype=torch.double)))
+                    except ValueError:
+                        ctx.holds("load_data_DM/ValueError iff exactly one matrix path is given" + t, (r is None) != (im is None))
+            out = D.load_data_DM("S")
+            ctx.holds("load_data_DM/samples only", len(out) == 1)
 
 
 def _refbasis(ctx, cfg):
